@@ -151,3 +151,58 @@ Example C14_ex_should_enable_from_source :
   Meta_gen.should_enable (MetaGenProofs.ex_sx [116; 97; 109; 112; 105]) st [1; 0; 0] tt tt = 0.
 Proof. repeat split; vm_compute; reflexivity. Qed.
 (* ==== end of block (unit meta) ==== *)
+
+(* ==== version gating from source (unit vparse) ==== *)
+(* src/include/version.h version_parse and src/emu/model.c model_version_probe, GENERATED from the C source (Gen/VParse_gen.v over
+   Emu/VParsePre.v; strtok_r, strtol with errno/endptr, strlen, strcpy, snprintf are primitives built from the SAME functions
+   VersionDefs uses; the 3-round loop is unrolled by the translator, the thread loop is a fold; should_enable is the generated
+   Meta_gen.should_enable).  nonul: a C string holds no NUL byte. *)
+From OV Require Emu.VParsePre Gen.VParse_gen Proofs.VParseProofs Emu.MetaPre Rt.RtMetaDefs.
+Theorem C14_version_parse_from_source : forall (p : VParsePre.cptr) st,
+  (forall a s, p = Some (a, s) -> VParseProofs.nonul s) ->
+  match version_parse (VParsePre.cstr p) with
+  | Some l => exists e, VParsePre.out_tuple (VParse_gen.version_parse p tt) st = VParsePre.VOk (l, VParsePre.mkV e (VParsePre.v_save st) (VParsePre.v_tuple st))
+  | None => VParsePre.out_tuple (VParse_gen.version_parse p tt) st = VParsePre.VErr VParsePre.E_FAIL
+  end.
+Proof. exact VParseProofs.version_parse_from_source. Qed.
+Print Assumptions C14_version_parse_from_source.
+
+Theorem C14_model_version_probe_from_source : forall spec emu st an name av ver,
+  VParsePre.sp_name spec = Some (an, name) -> VParsePre.sp_version spec = Some (av, ver) -> VParseProofs.nonul ver ->
+  (VParsePre.slen name + 8 < 128)%Z -> Forall VParseProofs.req_ok (VParsePre.e_threads emu) ->
+  match model_version_probe version_is_compatible name ver (map VParseProofs.req_of (VParsePre.e_threads emu)) with
+  | PErr => VParse_gen.model_version_probe spec emu st = VParsePre.VErr VParsePre.E_FAIL
+  | POff => exists e, VParse_gen.model_version_probe spec emu st = VParsePre.VOk (0, VParsePre.mkV e (VParsePre.v_save st) (VParsePre.v_tuple st))
+  | POn => exists e, VParse_gen.model_version_probe spec emu st = VParsePre.VOk (1, VParsePre.mkV e (VParsePre.v_save st) (VParsePre.v_tuple st))
+  end.
+Proof. exact VParseProofs.model_version_probe_from_source. Qed.
+Print Assumptions C14_model_version_probe_from_source.
+
+Theorem C14_enable_iff_from_source : forall spec emu st an name av ver have,
+  VParsePre.sp_name spec = Some (an, name) -> VParsePre.sp_version spec = Some (av, ver) -> VParseProofs.nonul ver ->
+  (VParsePre.slen name + 8 < 128)%Z -> Forall VParseProofs.req_ok (VParsePre.e_threads emu) -> version_parse (Some ver) = Some have ->
+  ((exists e, VParse_gen.model_version_probe spec emu st = VParsePre.VOk (1, VParsePre.mkV e (VParsePre.v_save st) (VParsePre.v_tuple st))) <->
+   probe_threads version_is_compatible have name (map VParseProofs.req_of (VParsePre.e_threads emu)) false = POn) /\
+  (VParse_gen.model_version_probe spec emu st = VParsePre.VErr VParsePre.E_FAIL <->
+   probe_threads version_is_compatible have name (map VParseProofs.req_of (VParsePre.e_threads emu)) false = PErr).
+Proof. exact VParseProofs.enable_iff_from_source. Qed.
+Print Assumptions C14_enable_iff_from_source.
+
+Example C14_ex_version_parse_from_source :
+  let run s := VParsePre.out_tuple (VParse_gen.version_parse (Some (1000, s)) tt) (VParsePre.mkV 7 None []) in
+  run [49; 46; 50; 46; 51] = VParsePre.VOk ([1; 2; 3], VParsePre.mkV 0 None []) /\                      (* "1.2.3" *)
+  run [52; 50; 57; 52; 57; 54; 55; 50; 57; 55; 46; 49; 46; 48] = VParsePre.VErr VParsePre.E_FAIL /\     (* "4294967297.1.0" *)
+  run [32; 49; 46; 50; 46; 51] = VParsePre.VOk ([1; 2; 3], VParsePre.mkV 0 None []) /\                  (* " 1.2.3": strtol skips the blank *)
+  run [49; 46; 46; 50; 46; 51] = VParsePre.VOk ([1; 2; 3], VParsePre.mkV 0 None []) /\                  (* "1..2.3": strtok_r skips the empty field *)
+  run [49; 46; 50] = VParsePre.VErr VParsePre.E_FAIL /\                                                 (* "1.2": no patch number *)
+  version_parse (Some [32; 49; 46; 50; 46; 51]) = Some [1; 2; 3] /\ version_parse (Some [49; 46; 46; 50; 46; 51]) = Some [1; 2; 3].
+Proof. repeat split; vm_compute; reflexivity. Qed.
+
+Example C14_ex_model_version_probe_from_source :
+  let spec v := VParsePre.mkSpec (Some (1, [110; 111; 115; 118])) (Some (2, v)) in
+  let emu := VParsePre.mkEmu [Some MetaGenProofs.ex_fs; Some MetaGenProofs.ex_fs] in
+  VParse_gen.model_version_probe (spec [50; 46; 53; 46; 49]) emu (VParsePre.mkV 0 None []) = VParsePre.VOk (1, VParsePre.mkV 0 None []) /\
+  VParse_gen.model_version_probe (spec [51; 46; 48; 46; 48]) emu (VParsePre.mkV 0 None []) = VParsePre.VErr VParsePre.E_FAIL /\
+  VParse_gen.model_version_probe (spec [50; 46; 53; 46; 49]) (VParsePre.mkEmu []) (VParsePre.mkV 0 None []) = VParsePre.VOk (0, VParsePre.mkV 0 None []).
+Proof. repeat split; vm_compute; reflexivity. Qed.
+(* ==== end of block (unit vparse) ==== *)
